@@ -77,10 +77,13 @@ Proof. vm_compute. reflexivity. Qed.
 Lemma tie_numrings : handoff_ok h_numrings = true.
 Proof. vm_compute. reflexivity. Qed.
 
+Lemma tie_future_refcount : handoff_ok h_future_refcount = true.
+Proof. vm_compute. reflexivity. Qed.
+
 Lemma tie_all : forallb handoff_ok handoffs = true.
 Proof.
   unfold handoffs. cbn [forallb].
-  rewrite tie_spsc_push_pop, tie_spsc_pop_push, tie_mpmc_push_pop, tie_mpmc_pop_push, tie_event, tie_latch_direct, tie_latch_last, tie_future_result, tie_then_chain, tie_whenall, tie_async_ready, tie_async_consumed, tie_cvec, tie_arena_size, tie_arena_table, tie_rw_unlock_lock, tie_rw_readers_writer_rmw, tie_rw_readers_writer_load, tie_taskset, tie_ts_exception, tie_graph, tie_numrings.
+  rewrite tie_spsc_push_pop, tie_spsc_pop_push, tie_mpmc_push_pop, tie_mpmc_pop_push, tie_event, tie_latch_direct, tie_latch_last, tie_future_result, tie_then_chain, tie_whenall, tie_async_ready, tie_async_consumed, tie_cvec, tie_arena_size, tie_arena_table, tie_rw_unlock_lock, tie_rw_readers_writer_rmw, tie_rw_readers_writer_load, tie_taskset, tie_ts_exception, tie_graph, tie_numrings, tie_future_refcount.
   reflexivity.
 Qed.
 
